@@ -119,7 +119,12 @@ Section Estimate.
     match goal with |- _ = match match ?E with _ => _ end with _ => _ end => destruct E as [r|] end;
       match goal with |- match ?X with _ => _ end = _ => destruct X as [[[[s' it'] b'] its']|] end; try tauto.
     destruct HL as (-> & _ & ->).
-    destruct (lr_best r <=? getNumberOfPointsToDrawModel s); reflexivity.
+    (* the final test, whichever way the source writes it:  best <= s -> false  |  best > s -> refine, true *)
+    destruct (Z.leb_spec (lr_best r) (getNumberOfPointsToDrawModel s));
+      repeat match goal with
+             | |- context [Z.ltb ?a ?b] => destruct (Z.ltb_spec a b)
+             | |- context [Z.leb ?a ?b] => destruct (Z.leb_spec a b)
+             end; try lia; reflexivity.
   Qed.
 End Estimate.
 
